@@ -554,7 +554,11 @@ class Function(ClassOrFunc):
         super().__init__(children)
         parameters = self._find_parameters()
         parameters_children = parameters.children[1:-1]
-        if not any(isinstance(child, Param) for child in parameters_children):
+        # If input parameters list already has Param objects or is already
+        # split up (e.g. `*,`), keep it as is; otherwise, convert it to a
+        # list of Param objects.
+        if len(parameters_children) <= 1 \
+                and not any(isinstance(child, Param) for child in parameters_children):
             parameters.children[1:-1] = _create_params(
                 parameters, parameters_children
             )
@@ -664,9 +668,11 @@ class Lambda(Function):
         super(Function, self).__init__(children)
         # Everything between `lambda` and the `:` operator is a parameter.
         parameters_children = self.children[1:-2]
-        # If input children list already has Param objects, keep it as is;
-        # otherwise, convert it to a list of Param objects.
-        if not any(isinstance(child, Param) for child in parameters_children):
+        # If input children list already has Param objects or is already
+        # split up (e.g. `*,`), keep it as is; otherwise, convert it to a
+        # list of Param objects.
+        if len(parameters_children) <= 1 \
+                and not any(isinstance(child, Param) for child in parameters_children):
             self.children[1:-2] = _create_params(self, parameters_children)
 
     @property
